@@ -8,13 +8,13 @@ hook_commits = [l.split()[0] for l in hooks if l.split(" ", 1)[1].startswith("ve
 
 CLAIMED = {
     "C03": dict(
-        text="Seeded search over optimizer kind, every hyper-parameter option combination (including zeros that trigger default substitution), 1-6 parameter slots with drawn addresses/shapes, per-slot update streams (six gradient patterns, three step-number conventions, up to 5000 updates) and the interleaving of the streams. After every update: element-wise agreement with the documented equations (f32 reference + f64 shadow), bitwise equality across Single/Double/Triple storage, bitwise equality between interleaved and isolated streams, finiteness whenever the exact trajectory is moderate.",
+        text="Seeded search over optimizer kind, every hyper-parameter option combination (including zeros that trigger default substitution), 1-6 parameter slots with drawn addresses/shapes, per-slot update streams (six gradient patterns, three step-number conventions, up to 5000 updates) and the interleaving of the streams. After every update: element-wise agreement with the documented equations (f32 reference + f64 shadow), bitwise equality across Single/Double/Triple storage, bitwise equality between interleaved and isolated streams, finiteness whenever the exact trajectory is moderate. A quarter of the cases are network-level: the slots are the parameter tensors of a whole generated network (dense, multi-filter conv/deconv, feedback blocks with their coupling) updated through Network::update / Feedback::update, and every element must follow the documented rule with its own slot's state (the [layer][filter][bias] addressing).",
         note="Trusted: the reference model transcribes the doc-comment equations; zero hyper-parameters are substituted exactly as Optimizer::validate does. Comparison tolerance 1e-4(1+|w|); ill-conditioned elements (f32 and f64 references drift apart) are only checked for finiteness. No parallel runtime is involved: the simulated nondeterminism is the seeded interleaving of slot update streams over mutable per-slot optimizer state.",
         technique="seeded operation-history simulation (interleaved per-slot update streams) against an executable reference model, with minimisation and replay",
         design="DESIGN.md 5 (C03)"),
     "C04": dict(
         text="Refinement: learn() under a drawn schedule (pool width, steal/order decisions, hash seed, clock script) versus an executable sequential reference trainer that is the property's right-hand side (ordered groups of B, per-sample forward/objective/backward, gradient sum, one optimizer step with step number = epoch, loss bookkeeping). Final parameters and the train-loss vector must agree for every generated (network, optimizer, objective, N, B, E, data).",
-        note="Trusted: the reference trainer reuses the library's forward, backward, objective, add_inplace and optimizer step, so C04 decides the orchestration only. Tolerance 1e-4(1+|w|) on parameters / 1e-5 on losses so a correct re-association is no alarm; bitwise agreement is counted. E1 switches only at join boundaries.",
+        note="Trusted: the reference trainer reuses the library's forward, backward, objective and optimizer step, so C04 decides the orchestration only; the gradient sum is the harness's own code (not Tensor::add_inplace). Tolerance 1e-4(1+|w|) on parameters / 1e-5 on losses so a correct re-association is no alarm; bitwise agreement is counted. E1 switches only at join boundaries.",
         technique="deterministic simulation (simulated work-stealing pool) + refinement check against a sequential reference trainer",
         design="DESIGN.md 5 (C04)"),
     "C05": dict(
@@ -39,7 +39,7 @@ CLAIMED = {
         design="DESIGN.md 5 (C12)"),
     "C13": dict(
         text="Recorded-history check: training runs whose validation-loss trajectory is steered (hook-set initial parameters, learning rates 0.01-2.5, independent validation targets, dyadic fixed points for plateaus) through rising, falling, U-shaped, oscillating and plateau shapes, tolerances 1-6, budgets 1-30, with/without validation data, under drawn schedules. The returned vectors must satisfy the length contract and the stopping predicate (never past the first epoch where it holds, never before), without validation the budget is exhausted, and the final parameters are those of exactly len(train_loss) epochs (bounded liveness: termination within the budget).",
-        note="Trusted: `strictly increased throughout the last tolerance recorded epochs` is read as the anchored mechanism states it (the last `tolerance` recorded losses strictly increasing; a window of one is vacuous). NaN validation losses are degenerate. Epochs actually run are observed through the reference trainer of C04.",
+        note="Trusted: `strictly increased throughout the last tolerance recorded epochs` is read as the anchored mechanism states it (the last `tolerance` recorded losses strictly increasing; a window of one is vacuous). A NaN loss is not an increase. Epochs actually run are observed through the reference trainer of C04.",
         technique="seeded history simulation with an oracle over the recorded loss history (stopping predicate, bounded liveness), under the simulated pool",
         design="DESIGN.md 5 (C13)"),
 }
